@@ -44,6 +44,7 @@ FIRST_MISS = {
  "C15-r4m1": "U11's Neg impl (outside 'negation of signed ones') now judged for the range invariant only: panic or a value inside [MIN, MAX]",
  "C18-r4m1": "ratio-1 transparency of integer formats at depths >= 36",
  "C18-r4m2": "superposition over inputs with runs of exact zeros (depth <= run < 2*depth) at fractional positions",
+ "C11-r4m1": "(covered before intake by the clone actions added for C19-r4m2) clone of Rms / of the rms adaptor continued independently",
  "C09-r3m1": "nodes without buffers anywhere in random graphs (counted per incoming edge when they are inputs)",
 }
 rows = []
